@@ -549,6 +549,15 @@ func (x *exec) doHead(op *Op, find bool) *report.Failure {
 	if hi.Forks >= 1 {
 		x.tag("head:forks-alive")
 	}
+	if sn := x.m.Nodes[start]; sn != nil && !sn.IsBlock() {
+		// DESIGN Appendix A: child blocks of the start's root hang off its block node in the package's graph
+		for ref, n := range x.m.Nodes {
+			if n.IsBlock() && n.ParentRoot == start.Root && ref.Slot > start.Slot {
+				x.tag("head:anchor-is-gap-node-with-child-blocks")
+				break
+			}
+		}
+	}
 	if x.post {
 		x.tag("head:after-prune")
 	}
